@@ -464,9 +464,7 @@ fn u3_insert_body(mode: u8, slot: usize) {
 				Some(i) => assert!(rs == i, "U3.insert.replace_touches_only_confirmed_slot"),
 				None => {
 					assert!(word(&old, rs) == 0, "U3.insert.never_overwrites_live_slot");
-					if j < rs {
-						assert!(word(&old, j) != 0, "U3.insert.takes_least_empty_slot");
-					}
+					// (which of the empty slots is taken is a layout policy the properties do not fix: not asserted)
 				},
 			}
 			kani::cover!(rs > 0, "opt: written beyond slot 0");
